@@ -348,6 +348,20 @@ def native_containers():
         lines = list(good[:at]) + [b"a,\xff"] + list(good[at:at + 1])
         cases.append(("delimited undecodable byte in line %d" % (at + 1), delim, b"\n".join(lines) + b"\n", ".csv", True, None))
     cases.append(("delimited unterminated quote, single line without newline", delim, b'a,"x', ".csv", True, None))
+    # the same malformations under every delimited dialect setting (the parser stays strict whatever the dialect)
+    dialects = [("skip initial space", ("d,skip initial space,true",), b",", b'"'), ("quote character '", ("d,quote character,\"'\"",), b",", b"'"),
+                ("item delimiter ;", ("d,item delimiter,;",), b";", b'"'), ("line delimiter lf", ("d,line delimiter,lf",), b",", b'"'),
+                ("escape character", ("d,escape character,\\",), b",", b'"'), ("encoding ascii", ("d,encoding,ascii",), b",", b'"')]
+    for dname, extra, sep, quote in dialects:
+        text_d = rf.cid_text(keys, "delimited", extra=("d,header,0",) + extra)
+        ok_lines = [b"a" + sep + b"x", b"b" + sep + quote + b"y" + quote]
+        cases.append(("delimited healthy (%s)" % dname, text_d, b"\n".join(ok_lines) + b"\n", ".csv", False, 2))
+        cases.append(("delimited unterminated quote at the end (%s)" % dname, text_d,
+                      b"\n".join(ok_lines + [b"a" + sep + quote + b"x"]) + b"\n", ".csv", True, None))
+        if dname.startswith(("quote character", "escape character")):
+            continue  # without quote doubling the csv module takes text after a closing quote as more of the item
+        cases.append(("delimited text after a closing quote (%s)" % dname, text_d,
+                      b"\n".join(ok_lines + [b"a" + sep + quote + b"x" + quote + b"y"]) + b"\n", ".csv", True, None))
     cases.append(("delimited undecodable byte far into the data", delim, b"a,x\n" * 5000 + b"a,\xff\n", ".csv", True, None))
     cases.append(("fixed healthy", fixed, b"ax \ncx \nb  \n", ".txt", False, 3))
     for at in range(0, 3):
